@@ -24,7 +24,11 @@ func TestMain(m *testing.M) {
 			"index assignment incl. negative index and map key/field, append/concat/merge with +, appends from a shared base, del, slicing, rest, passing to a mutating function, mutation inside " +
 			"a for loop over the container, ++ on an element copy); the model holds plain values with deep copy on every bind. Oracle: after EVERY statement every live variable evaluates to " +
 			"the model's value (structure and types). Non-trivial: the history contains a copy/store/pass of a container followed by a mutation of one side while that container is above its " +
-			"threshold (> 8 elements / > 4 pairs), or two appends from the same base; distinct by history text.",
+			"threshold (> 8 elements / > 4 pairs), or two appends from the same base; distinct by history text. " +
+			"Second family (derived_test.go): shorter histories over 4 variables whose containers sit around the representation thresholds (arrays 7..10, maps 3..7) and in which a SECOND binding is " +
+			"derived from a container that stays bound - x = rest(y), x = y[l:r] / y[l:] / y[-n:], x = first(y), a function or an inline loop stripping leading entries down to n (with or without " +
+			"an index assignment inside the callee) - followed by index assignment / del on an EXISTING key or index, appends and merges on either side; the model says the " +
+			"derived value shares the source's storage only when it is itself still large (then K-C06-1/2 apply), and is an independent value otherwise; same oracle after every statement.",
 		Assumptions: []string{
 			"m.v++ is documented as unsupported (TestIncrMatrix) and not generated; index bounds are generated in range (out of range is C07's subject)",
 			"known findings K-C06-1 (index assignment / del mutate a large container in place) and K-C06-2 (appends from one base share spare capacity) are excluded by construction while listed: see known.go",
@@ -85,16 +89,20 @@ type machine struct {
 	bigRep     map[string]bool // variable -> its map value uses the large representation although it has <= 4 pairs (it shrank through del)
 	inFunc     bool
 	inFuncUsed int
+	der        map[string]int // variable -> the storage id it had when it was the source or the result of a derivation (second family) from a container around a threshold
+	ntDer      bool           // ... and one of those was mutated afterwards
 }
 
 const prelude = `func mut(p, i, v) { p[i] = v; p }
 func mutmap(p, k, v) { p[k] = v; p }
 func grow(p, v) { p = p + v; p }
 func vmut(..) { v = ..; if len(v) > 0 { v[0] = 100 }; v }
-func tbl(n) { {"cells": [0] * n, "n": n} }`
+func tbl(n) { {"cells": [0] * n, "n": n} }
+func strip(p, n) { for len(p) > n { p = rest(p) }; p }
+func stripmut(p, n, k, v) { for len(p) > n { p = rest(p) }; p[k] = v; p }`
 
 func newMachine() *machine {
-	m := &machine{s: sess.New(sess.Config{}), model: map[string]val.V{}, excl: map[string]int{}, store: map[string]int{}, inner: map[string]map[int]bool{}, spare: map[int]bool{}, bigRep: map[string]bool{}}
+	m := &machine{s: sess.New(sess.Config{}), model: map[string]val.V{}, excl: map[string]int{}, store: map[string]int{}, inner: map[string]map[int]bool{}, spare: map[int]bool{}, bigRep: map[string]bool{}, der: map[string]int{}}
 	if r := m.s.Run(prelude); r.Failed() {
 		panic("harness: prelude failed: " + strings.Join(r.Errs, ";"))
 	}
@@ -247,6 +255,9 @@ func (m *machine) sharedWithOthers(name string) bool {
 // markMutation records that container `name` is mutated while another binding may share its storage.
 func (m *machine) markMutation(name string) {
 	v := m.model[name]
+	if id, ok := m.der[name]; ok && id == m.store[name] {
+		m.ntDer = true
+	}
 	if !big(v) {
 		return
 	}
@@ -347,7 +358,7 @@ func (m *machine) apply(o Op) (skip bool, err error) {
 		nv.A[i] = val.I(int64(o.V))
 		m.model[x] = nv
 		return false, m.run(fmt.Sprintf("%s[%d] = %d", x, idx, o.V))
-	case "setkey":
+	case "setkey", "setat": // setat: an existing key, chosen by position
 		if !xok || xv.K != val.Map {
 			return true, nil
 		}
@@ -356,13 +367,19 @@ func (m *machine) apply(o Op) (skip bool, err error) {
 			return true, nil
 		}
 		k := keys[o.N%len(keys)]
+		if o.Kind == "setat" {
+			var ok bool
+			if k, ok = existingKey(xv, o.N); !ok {
+				return true, nil
+			}
+		}
 		m.markMutation(x)
 		m.model[x] = xv.Set(val.S(k), val.I(int64(o.V)))
 		if o.R%2 == 1 {
 			return false, m.run(fmt.Sprintf("%s.%s = %d", x, k, o.V))
 		}
 		return false, m.run(fmt.Sprintf("%s[%q] = %d", x, k, o.V))
-	case "delkey":
+	case "delkey", "delat": // delat: an existing key, chosen by position
 		if !xok || xv.K != val.Map {
 			return true, nil
 		}
@@ -371,6 +388,12 @@ func (m *machine) apply(o Op) (skip bool, err error) {
 			return true, nil
 		}
 		k := keys[o.N%len(keys)]
+		if o.Kind == "delat" {
+			var ok bool
+			if k, ok = existingKey(xv, o.N); !ok {
+				return true, nil
+			}
+		}
 		m.markMutation(x)
 		nv, _ := xv.Del(val.S(k))
 		m.model[x] = nv
@@ -658,7 +681,7 @@ func (m *machine) apply(o Op) (skip bool, err error) {
 		m.fresh(x)
 		return false, m.run(fmt.Sprintf("%s = %s[0]; %s++", x, y, x))
 	}
-	return true, nil
+	return m.applyDerived(o) // the kinds of the second family (derived_test.go)
 }
 
 // trackRep keeps bigRep up to date after an op (only maps can be large with few pairs: Delete keeps the representation).
@@ -677,12 +700,14 @@ func (m *machine) trackRep(o Op) {
 		m.bigRep[x] = m.bigRep[y] || len(xv.M) > 4
 	case "unwrap":
 		m.bigRep[x] = true // unknown: assume the large representation
-	case "setkey", "delkey", "mergemap", "setcont":
+	case "setkey", "delkey", "setat", "delat", "mergemap", "setcont":
 		m.bigRep[x] = m.bigRep[x] || len(xv.M) > 4
 	case "emptyplus": // {} + y: built pair by pair, or as a copy of a large y
 		m.bigRep[x] = m.bigRep[y] || len(xv.M) > 4
 	case "bindmap", "wrapmap", "slice", "rest": // rebuilt with the representation its size asks for
 		m.bigRep[x] = len(xv.M) > 4
+	default:
+		m.trackRepDerived(o, x, y, xv)
 	}
 }
 
